@@ -1,0 +1,50 @@
+//go:build verif
+
+package directive
+
+import (
+	"sort"
+
+	"github.com/jsightapi/jsight-api-core/verifhook"
+)
+
+// VerifDump makes a read-only copy of the directive and its subtree.
+func (d *Directive) VerifDump() *verifhook.Node {
+	n := &verifhook.Node{
+		Kind:         d.type_.String(),
+		Keyword:      d.Keyword,
+		Begin:        int(d.keywordCoords.begin),
+		Annotation:   d.Annotation,
+		Explicit:     d.HasExplicitContext,
+		ParentIsNil:  d.Parent == nil,
+		ChildrenNull: d.Children == nil,
+	}
+	if d.keywordCoords.file != nil {
+		n.File = d.keywordCoords.file.Name()
+	}
+	names := make([]string, 0, len(d.namedParameters))
+	for k := range d.namedParameters {
+		names = append(names, k)
+	}
+	sort.Strings(names)
+	for _, k := range names {
+		n.Named = append(n.Named, k, d.namedParameters[k])
+	}
+	n.Unnamed = append(n.Unnamed, d.unnamedParameters...)
+	if d.BodyCoords.IsSet() {
+		n.HasBody = true
+		n.BodyFile = d.BodyCoords.file.Name()
+		n.BodyBegin = int(d.BodyCoords.begin)
+		n.BodyEnd = int(d.BodyCoords.end)
+	}
+	if d.Parent != nil {
+		n.ParentBegin = int(d.Parent.keywordCoords.begin)
+		if d.Parent.keywordCoords.file != nil {
+			n.ParentFile = d.Parent.keywordCoords.file.Name()
+		}
+	}
+	for _, c := range d.Children {
+		n.Children = append(n.Children, c.VerifDump())
+	}
+	return n
+}
